@@ -122,6 +122,7 @@ func runC02(c *Ctx, tier string) {
 		}
 	}
 	c.Floor("C02-K1", 60)
+	runTypedefLatestWins(c, "C02-K2")
 }
 
 // ---------------------------------------------------------------- C03
@@ -224,6 +225,7 @@ func runC03(c *Ctx, tier string) {
 			c.Fail("C03-B1", "(*vng.PrimitiveEncoder).update dictionary bound", cst.Pos(), "the dictionary is no longer abandoned when it outgrows MaxDictSize")
 		}
 	}
+	runDictBoundAfterInsert(c, "C03-B1")
 	// O1
 	if fn := p.Func("(*vng.Writer).finalize"); fn == nil {
 		c.Undecided("C03-O1", "(*vng.Writer).finalize", "anchor does not resolve")
